@@ -41,13 +41,41 @@ structure Tags where
   placeholder : Bool := false
   /-- set by PunctSegmentor (punctuator.cc) -/
   punct : Bool := false
+  /-- every other tag, by name (the recognizer's pattern names set by the matcher; the affix segmentor's `tag`, `tag_prefix`,
+  `tag_suffix` and extra tags): a set, kept without repetitions in insertion order -/
+  extra : List String := []
   deriving Repr, DecidableEq, Inhabited
 
 def Tags.union (a b : Tags) : Tags :=
   { abc := a.abc || b.abc, raw := a.raw || b.raw, partial_ := a.partial_ || b.partial_,
     paging := a.paging || b.paging, selectedBeforeEditing := a.selectedBeforeEditing || b.selectedBeforeEditing,
     phony := a.phony || b.phony, placeholder := a.placeholder || b.placeholder,
-    punct := a.punct || b.punct }
+    punct := a.punct || b.punct, extra := a.extra ++ b.extra.filter (fun n => !a.extra.contains n) }
+
+/-- `segment.HasTag(name)` for a tag given by name (the tags the rest of the model reads are the flags above) -/
+def Tags.has (t : Tags) (n : String) : Bool :=
+  if n = "abc" then t.abc else if n = "raw" then t.raw else if n = "partial" then t.partial_
+  else if n = "paging" then t.paging else if n = "selected_before_editing" then t.selectedBeforeEditing
+  else if n = "phony" then t.phony else if n = "placeholder" then t.placeholder else if n = "punct" then t.punct
+  else t.extra.contains n
+
+/-- `segment.tags.insert(name)` -/
+def Tags.insert (t : Tags) (n : String) : Tags :=
+  if n = "abc" then { t with abc := true } else if n = "raw" then { t with raw := true }
+  else if n = "partial" then { t with partial_ := true } else if n = "paging" then { t with paging := true }
+  else if n = "selected_before_editing" then { t with selectedBeforeEditing := true }
+  else if n = "phony" then { t with phony := true } else if n = "placeholder" then { t with placeholder := true }
+  else if n = "punct" then { t with punct := true }
+  else if t.extra.contains n then t else { t with extra := t.extra ++ [n] }
+
+/-- `segment.tags.erase(name)` -/
+def Tags.erase (t : Tags) (n : String) : Tags :=
+  if n = "abc" then { t with abc := false } else if n = "raw" then { t with raw := false }
+  else if n = "partial" then { t with partial_ := false } else if n = "paging" then { t with paging := false }
+  else if n = "selected_before_editing" then { t with selectedBeforeEditing := false }
+  else if n = "phony" then { t with phony := false } else if n = "placeholder" then { t with placeholder := false }
+  else if n = "punct" then { t with punct := false }
+  else { t with extra := t.extra.filter (fun m => m != n) }
 
 /-- Segment.  `menu = none` is a null `an<Menu>`; `some l` is a menu whose full (merged, filtered)
 candidate list is `l` — the lazily filled cache of the real Menu is the subject of C04, whose
@@ -83,6 +111,11 @@ def Seg.prepare (g : Seg) (n : Nat) : Nat :=
 structure Comp where
   input : Bytes := []
   segs : List Seg := []
+  /-- GHOST: the value of the context's `ascii_mode` option, which `AsciiSegmentor::Proceed` reads through
+  `engine_->context()->get_option("ascii_mode")` in the middle of a recomposition.  `Env.recompose` is a function of
+  (input, caret, composition) only, so the one option a segmentor reads travels with the composition: it is written by
+  `Ctx.setOptionRaw` (the only writer of `Ctx.options`) and by nothing else; no other component of the model looks at it. -/
+  ascii : Bool := false
   deriving Repr, DecidableEq, Inhabited
 
 /-- client-visible + internal state of one session's Context and commit buffer -/
@@ -118,7 +151,14 @@ def Ctx.getOption (c : Ctx) (name : String) : Bool :=
   | none => false
 
 def Ctx.setOptionRaw (c : Ctx) (name : String) (v : Bool) : Ctx :=
-  { c with options := (name, v) :: c.options.filter (·.1 != name) }
+  { c with options := (name, v) :: c.options.filter (·.1 != name),
+           comp := if name = "ascii_mode" then { c.comp with ascii := v } else c.comp }
+
+theorem Ctx.setOptionRaw_segs (c : Ctx) (name : String) (v : Bool) : (c.setOptionRaw name v).comp.segs = c.comp.segs := by
+  unfold Ctx.setOptionRaw; dsimp only; split <;> rfl
+
+theorem Ctx.setOptionRaw_cinput (c : Ctx) (name : String) (v : Bool) : (c.setOptionRaw name v).comp.input = c.comp.input := by
+  unfold Ctx.setOptionRaw; dsimp only; split <;> rfl
 
 /-- one entry of `punctuator/half_shape` or `punctuator/full_shape` (punctuator.cc): a scalar (`ConfigValue`),
 a list of scalars (`ConfigList`), `{commit: t}` or `{pair: [a, b]}` (`ConfigMap`; `commit` is looked at first) -/
@@ -182,6 +222,27 @@ structure KbBinding where
 inductive SwitchDef where
   | toggle (name : String) (reset : Int)
   | radio (options : List String) (reset : Int)
+  deriving Repr, DecidableEq, Inhabited
+
+/-! ### recognizer / matcher / affix_segmentor configuration -/
+
+/-- one entry of `recognizer/patterns`: the pattern's name (the tag the matcher sets) and its `boost::regex_search` on the
+active input — position and length of the leftmost match, `none` when there is none.  The regular expression itself is
+NOT modelled: every theorem quantifies over all search functions; the driver supplies the function of a small class of
+patterns (Session/RecogPattern.lean) that the synthetic schemas stay inside. -/
+structure RecPattern where
+  tag : String
+  search : Bytes → Option (Nat × Nat)
+
+/-- the configuration of one `affix_segmentor@name` (affix_segmentor.cc: constructor) -/
+structure AffixCfg where
+  tag : String := "abc"
+  prefix_ : Bytes := []
+  suffix : Bytes := []
+  tips : Bytes := []
+  closingTips : Bytes := []
+  /-- `extra_tags` (a std::set: they are only ever inserted, the order does not matter) -/
+  extraTags : List String := []
   deriving Repr, DecidableEq, Inhabited
 
 end RimeModel.Session
